@@ -588,4 +588,27 @@ theorem call_reread_chan_aux {α : Type} (C : Cls α) (B : Str) (s : LSt α) (c 
     rw [this]
   · simp [hst]
 
+/-! ### flush under interleaving -/
+
+
+theorem foldl_zip_replicate_nil {α β γ : Type} (F : γ → α × List β → γ) (G : γ → α → γ)
+    (h : ∀ acc a, F acc (a, []) = G acc a) : ∀ (l : List α) (n : Nat) (acc : γ), l.length ≤ n →
+    (l.zip (List.replicate n [])).foldl F acc = l.foldl G acc := by
+  intro l
+  induction l with
+  | nil => intro n acc _; simp
+  | cons a as ih =>
+    intro n acc hn
+    cases n with
+    | zero => simp at hn
+    | succ m =>
+      simp only [List.replicate_succ, List.zip_cons_cons, List.foldl_cons, h]
+      exact ih m _ (by simp at hn; omega)
+
+theorem saveInterleaved_nil_aux {α : Type} (C : Cls α) (strCalls : Bool) (B : Str) (s : LSt α) :
+    s.saveInterleaved C strCalls B [] = s.save C strCalls B := by
+  unfold LSt.saveInterleaved LSt.save
+  simp only [List.nil_append]
+  exact foldl_zip_replicate_nil _ _ (by intro acc a; simp) _ _ _ (Nat.le_refl _)
+
 end C15
